@@ -109,6 +109,23 @@ def build_triple(gen, base, pattern, inserts):
         if cell is None:
             break
         owner, action = pattern[idx]
+        if owner == "-" and len(base["cells"]) <= 50 and r.random() < 0.12:
+            # a cell NEITHER side owns alone: both make the IDENTICAL source edit (a commit both branches picked up), and
+            # each also leaves its own mark elsewhere in the cell (its own metadata member): all three changes must arrive
+            shared = copy.deepcopy(cell)
+            lines = shared["source"].splitlines(True) or [""]
+            shared["source"] = "".join(lines[:1]) + ("" if lines[0].endswith("\n") or not lines[0] else "\n") + "shared_edit_%d = True\n" % idx + "".join(lines[1:])
+            lc, rc, ec_ = copy.deepcopy(shared), copy.deepcopy(shared), copy.deepcopy(shared)
+            if r.random() < 0.8:
+                lc["metadata"]["mark_L"] = idx
+                ec_["metadata"]["mark_L"] = idx
+            if r.random() < 0.8:
+                rc["metadata"]["mark_R"] = [idx]
+                ec_["metadata"]["mark_R"] = [idx]
+            loc.append(lc)
+            rem.append(rc)
+            exp.append(ec_)
+            continue
         new = apply_action(gen, cell, action, idx) if owner != "-" and action != "leave" else copy.deepcopy(cell)
         for side, lst in (("L", loc), ("R", rem)):
             if owner == side:
@@ -170,11 +187,19 @@ def judge(col, gen, base, pattern, inserts, tag):
     lchanged = canon(loc) != canon(base)
     rchanged = canon(rem) != canon(base)
     for cfg in ({"merge": "inline", "input": None, "output": None, "ignore_transients": True},
-                {"merge": "mergetool", "input": None, "output": None, "ignore_transients": True}):
+                {"merge": "mergetool", "input": None, "output": None, "ignore_transients": True},
+                {"merge": "union", "input": None, "output": None, "ignore_transients": True}):
         col.eval()
         nbd.hygiene()
         try:
-            merged, dec = nbd.merge_notebooks(to_node(base), to_node(loc), to_node(rem), merge_args(cfg))
+            if cfg["merge"] == "union":
+                # the documented `union` strategy (cli.rst) is not among the command line's choices: library callers
+                # pass it in the options object
+                args_ = merge_args(dict(cfg, merge="inline"))
+                args_.merge_strategy = "union"
+            else:
+                args_ = merge_args(cfg)
+            merged, dec = nbd.merge_notebooks(to_node(base), to_node(loc), to_node(rem), args_)
         except Exception as e:
             key, tmpl = nbd.exc_key(e)
             col.violation("merge-raised:" + key, str(e)[:200], dict(case, config=cfg), "no-exception")
